@@ -261,6 +261,7 @@ func genExpiry(e *acc.Env, name string, ages []int64) Item {
 	st := acc.Req{Route: "status", Method: "GET", Target: "/status", Auth: e.ObserverBearer("relay:stats"), Label: "stats"}
 	ops = append(ops, acc.Op{K: "req", Req: &st})
 	ops = append(ops, acc.Op{K: "wait", T: exp*1000 + 2000})
+	ops = append(ops, acc.Op{K: "timers"})
 	for i := range ages {
 		ops = append(ops, acc.Op{K: "serverclose", UA: i + 1})
 	}
@@ -1011,8 +1012,8 @@ func work(a lib.Args) {
 				if o.K == "ws" {
 					res.Count("expiry-join:" + it.H.Outs[k].Ws)
 				}
-				if o.K == "leave" {
-					res.Count("expiry:ended-by-relay")
+				if o.K == "timers" {
+					res.Count("expiry:timer-steps")
 				}
 			}
 		case "relay":
